@@ -71,13 +71,18 @@ long   __real_ftell(FILE *);
 int    __real_fflush(FILE *);
 int    __real_fclose(FILE *);
 
+void __sanitizer_print_stack_trace(void);
 static int tick(char kind)
 {
     if (!armed) return 0;
     long i  = RES->ncalls++;
     int  f  = fail_at >= 0 && (i == fail_at || (sticky && i > fail_at));
     if (i < MAXCALLS) RES->kinds[i] = f ? (char)toupper(kind) : kind;
-    if (f) { RES->nfaults++; errno = variant ? ENOSPC : EIO; }
+    if (f) {
+        RES->nfaults++;
+        if (getenv("C16_TRACE") && RES->nfaults == 1) __sanitizer_print_stack_trace();   /* where the fault hits */
+        errno = variant ? ENOSPC : EIO;
+    }
     return f;
 }
 static int tracked(FILE *f) { return f != stdout && f != stderr && f != stdin && f != NULL; }
